@@ -88,6 +88,35 @@ class World(object):
                 self._add(o, k, tt)
         elif kind == 'unhold':
             self.held = []
+        elif kind == 'churn':
+            # a caller looking for a good ordering: the same small function under MANY other orderings
+            # (permutations of the variables, then orderings with further variables in them), each
+            # diagram checked and dropped at once; what is alive must not care
+            _, count, which = op
+            expr = bdd.minterm_expr((0x6A5D3B19F7E4C280 >> (which % 7)) & self.full or 1, self.vars)
+            tt = bdd.eval_tt(expr, self.vars)
+            text = bdd.to_str(expr)
+            made = 0
+            for perm in itertools.permutations(self.vars):
+                if made >= count:
+                    break
+                if list(perm) in self.orders:
+                    continue
+                o = OBDD(text, list(perm))
+                if bdd.walk_tt(o.root, self.vars) != tt:
+                    raise AssertionError('diagram built under ordering %r denotes another function' % (perm,))
+                made += 1
+            extra = 0
+            while made < count:
+                order = list(self.vars) + ['w%d' % extra]
+                order = order[extra % len(order):] + order[:extra % len(order)]
+                o = OBDD(text, order)
+                if bdd.walk_tt(o.root, self.vars) != tt:
+                    raise AssertionError('diagram built under ordering %r denotes another function' % (order,))
+                made += 1
+                extra += 1
+            o = None
+            self.flags.add('many other orderings used in between' if count >= 100 else 'a few other orderings used in between')
         elif kind == 'printall':
             # print every live diagram as a root (printing must not influence later printing)
             for e in self.pool:
@@ -283,7 +312,7 @@ def ddmin(orders, log, budget=400):
 def machine_shard(st, shard, nshards, payload):
     """Run Hypothesis machines in this process with its own seed."""
     from hypothesis import strategies as hs, seed
-    from hypothesis.stateful import RuleBasedStateMachine, rule, invariant, initialize, \
+    from hypothesis.stateful import RuleBasedStateMachine, rule, invariant, initialize, precondition, \
         run_state_machine_as_test
 
     exprs = bdd.st_expr(SLOTS, max_depth=3)
@@ -390,6 +419,11 @@ def machine_shard(st, shard, nshards, payload):
         @rule()
         def print_everything(self):
             self._do(['printall'])
+
+        @precondition(lambda self: self.world is not None and self.world.counts.get('churn', 0) < 2)
+        @rule(count=hs.sampled_from([3, 30, 135, 135, 260]), which=hs.integers(0, 6))
+        def churn_orderings(self, count, which):
+            self._do(['churn', count, which])
 
         @invariant()
         def canonical(self):
